@@ -77,10 +77,10 @@ CHECKS = {
         'assumptions': T_ASSUME,
     },
     'C04': {
-        'units': lambda t: [u_act(t, 0), u_act(t, 0, 1), u_core(t)],
+        'units': lambda t: [u_act(t, 0), u_act(t, 0, 1), u_core(t), u_conv(t)],
         'rule': 'tables over the classical operators plus enable/disable, action<>, apply/apply0/if_apply rules with void/bool apply/apply0 actions attached by rule id, eager and lazy inputs; every veto/throw '
-                'decision function with <=2 (thorough 3) non-default answers; oracle: online span/enabledness check at every invocation and equality '
-                'of the transactional action log with the reference derivation',
+                'decision function with <=2 (thorough 3) non-default answers; oracle: online span/enabledness check at every invocation, equality '
+                'of the transactional action log with the reference derivation, and equality of the complete invocation log (backtracked invocations included) - the latter also over every convenience rule',
         'assumptions': T_ASSUME,
     },
     'C08': {
